@@ -334,6 +334,12 @@ def rule_borrowed_r4(ctx):
     ctx.borrow(rule_carry, {"C08.CARRY": "C09.NAMES"})
     ctx.rule("C09.BLOCKS", "file contents are copied block by block until an EMPTY read: a block shorter than requested is not the end of the file (shared with C01.EOF)")
     ctx.borrow(rule_eof, {"C01.EOF": "C09.BLOCKS"})
+    from .c07 import rule_vanish
+    ctx.rule("C09.VANISH", "one entry that cannot be stat'ed does not fail the recursive listing of the whole tree (shared with C07.VANISH)")
+    ctx.borrow(rule_vanish, {"C07.VANISH": "C09.VANISH"})
+    from .c08 import rule_codec
+    ctx.rule("C09.CODEC", "listing lines are written and read with the configured encoding on both sides: a recursive operation meets every name of the tree (shared with C08.CODEC)")
+    ctx.borrow(rule_codec, {"C08.CODEC": "C09.CODEC"})
 
 
 def rule_local_dirs(ctx):
